@@ -66,6 +66,16 @@ def run(ctx):
         if k == 6: return replace(t, p_, lambda x: x[:i] + [[S(r.choice(['decimal', 'ip', 'isInRange', 'nosuch', 'contains', 'Record'])), x[i][1]]] + x[i + 1:])
         return replace(t, path, lambda x: ['arr', x])
     dec_trees = list(trees)
+    # like patterns as OTHER producers may write them: repeated wildcards, split / empty literals, in every position
+    W = ['str', S('Wildcard')]
+    lit_ = lambda x: ['obj', [S('Literal'), ['str', S(x)]]]
+    PATS = [[W, W, lit_('foo')], [W, W], [W, W, W, lit_('a'), W, W], [lit_('a'), lit_('b')], [lit_(''), W, lit_('x')], [W, lit_(''), W, lit_('x')], [lit_('')], [W], [lit_('a'), W, W, lit_('b')],
+            [lit_('*'), W], [W, lit_(''), lit_('')], [lit_(''), lit_(''), W, W, lit_('')]]
+    for pat in PATS:
+        for subj in ('bar', '', 'foox', 'foo', 'axb', 'ab', 'x', '*'):
+            body = ['obj', [S('like'), ['obj', [S('left'), ['obj', [S('Value'), ['str', S(subj)]]]], [S('pattern'), ['arr'] + pat]]]]
+            dec_trees.append(['obj', [S('effect'), ['str', S('permit')]], [S('principal'), ['obj', [S('op'), ['str', S('All')]]]], [S('action'), ['obj', [S('op'), ['str', S('All')]]]],
+                              [S('resource'), ['obj', [S('op'), ['str', S('All')]]]], [S('conditions'), ['arr', ['obj', [S('kind'), ['str', S('when')]], [S('body'), body]]]]])
     for t in trees:
         for _ in range(2 if ctx.tier == 'quick' else 6):
             dec_trees.append(mutate(t))
